@@ -2,7 +2,7 @@
 # tools/try_seed.sh <patch.diff> <check> [tier] : run one check against /repo HEAD + patch in a scratch worktree (removed afterwards)
 wt=$(mktemp -d /tmp/try_XXXX); rmdir $wt
 git -C /repo worktree add --detach $wt HEAD >/dev/null 2>&1
-git -C $wt apply "$1" || { echo "patch does not apply"; git -C /repo worktree remove --force $wt; exit 2; }
+git -C $wt apply "$(realpath "$1")" || { echo "patch does not apply"; git -C /repo worktree remove --force $wt; exit 2; }
 cd "$(dirname "$0")/.."
 VERIF_REPO=$wt VERIF_EVIDENCE_DIR=/tmp/mut_evidence ./check $2 --tier ${3:-quick} 2>&1 | grep -v "^KNOWN-FINDING" | cut -c1-400 | tail -${4:-8}
 git -C /repo worktree remove --force $wt
